@@ -160,6 +160,18 @@ func (fx *FnCtx) instr(in ssa.Instruction) {
 		// zero-initialised (cells beyond the allocation frontier are zero)
 		l := &Loc{kind: locPtr, base: ref, rootT: t}
 		fx.assume(eq(st.read(P, l), P.sorts.zero(t)))
+		// ghost state attached to a fresh object starts at its zero value (nothing written to a new buffer, ...)
+		for _, gname := range sortedKeys(P.ghostComps) {
+			g := P.ghostComps[gname]
+			gt, err := P.resolveType(P.pkgOf(g.Pkg), g.Type)
+			if err != nil {
+				continue
+			}
+			gs := P.sorts.sortOf(gt)
+			comp := "X$" + gname
+			h := st.getHeap(P, comp, fmt.Sprintf("(Array Int %s)", gs))
+			fx.assume(eq(app(gs, "select", h, ref), P.sorts.zero(gt)))
+		}
 	case *ssa.Store:
 		l := fx.resolveAddr(x.Addr)
 		for _, c := range l.comps(P) {
